@@ -286,7 +286,7 @@ def sources_under_ctm(ctx, base):
 
 
 def run(ctx):
-    return _scene.run_property(ctx, CFG, 1500, 20000, RULE, concrete, ASSUME, post=post, nontrivial=nontrivial, extra_lines=sources_under_ctm)
+    return _scene.run_property(ctx, CFG, 2500, 20000, RULE, concrete, ASSUME, post=post, nontrivial=nontrivial, extra_lines=sources_under_ctm)
 
 
 def replay(ctx, path):
